@@ -89,3 +89,18 @@ Proof.
   intros _ Hfresh. unfold used_when_omitted, final. rewrite fold_left_app.
   apply lookup_fold_register_notin. exact Hfresh.
 Qed.
+
+(** passing the documented default explicitly, in any of the three ways of writing it, leaves the
+    option at its default and no stray argument, provided the option consumes its value (empty
+    NoOptDefVal); with a non-empty NoOptDefVal different from the default the space-separated forms do not *)
+Lemma parse_given_default :
+  forall f d, parse_given ""%string f d = (d, 0).
+Proof. intros f d. destruct f; reflexivity. Qed.
+
+Lemma parse_given_noopt_refuted :
+  forall noopt d, noopt <> ""%string -> parse_given noopt LongSpace d <> (d, 0).
+Proof.
+  intros noopt d Hn. unfold parse_given.
+  destruct (String.eqb_spec noopt ""%string) as [E|_]; [contradiction|].
+  intros H. inversion H.
+Qed.
